@@ -1,0 +1,196 @@
+//go:build verif
+
+package tls
+
+// Verification hook (build tag "verif" only): thin exported wrappers over the
+// unexported key-derivation functions of prf.go and key_schedule.go. Accessors
+// only: no behaviour, no assertions.
+
+import (
+	"crypto/md5"
+	"crypto/sha1"
+	"crypto/sha256"
+	"crypto/sha512"
+	"hash"
+)
+
+// VerifKDFSuite describes one entry of a TLS <= 1.2 suite table.
+type VerifKDFSuite struct {
+	Table  string // "implemented" (implementedCipherSuites) or "default" (cipherSuites)
+	Index  int    // position in that table (ids repeat, so entries are addressed by position)
+	ID     uint16
+	KeyLen int
+	MACLen int
+	IVLen  int
+	Flags  int
+	SHA384 bool // suiteSHA384
+	TLS12  bool // suiteTLS12
+}
+
+func verifKDFSuiteTable(table string) []*cipherSuite {
+	if table == "default" {
+		return cipherSuites
+	}
+	return implementedCipherSuites
+}
+
+// VerifKDFSuites lists both suite tables.
+func VerifKDFSuites() []VerifKDFSuite {
+	var out []VerifKDFSuite
+	for _, table := range []string{"implemented", "default"} {
+		for i, s := range verifKDFSuiteTable(table) {
+			out = append(out, VerifKDFSuite{Table: table, Index: i, ID: s.id, KeyLen: s.keyLen, MACLen: s.macLen, IVLen: s.ivLen,
+				Flags: s.flags, SHA384: s.flags&suiteSHA384 != 0, TLS12: s.flags&suiteTLS12 != 0})
+		}
+	}
+	return out
+}
+
+func verifKDFSuitePtr(s VerifKDFSuite) *cipherSuite { return verifKDFSuiteTable(s.Table)[s.Index] }
+
+// VerifCipherSuiteByID exposes cipherSuiteByID (the lookup the handshake uses) as a table position, -1 if absent.
+func VerifCipherSuiteByID(id uint16) int {
+	cs := cipherSuiteByID(id)
+	for i, s := range implementedCipherSuites {
+		if s == cs {
+			return i
+		}
+	}
+	return -1
+}
+
+func verifKDFHash(name string) func() hash.Hash {
+	switch name {
+	case "md5":
+		return md5.New
+	case "sha1":
+		return sha1.New
+	case "sha256":
+		return sha256.New
+	case "sha384":
+		return sha512.New384
+	}
+	panic("verif: unknown hash " + name)
+}
+
+// VerifPHash wraps pHash.
+func VerifPHash(hashName string, n int, secret, seed []byte) []byte {
+	out := make([]byte, n)
+	pHash(out, secret, seed, verifKDFHash(hashName))
+	return out
+}
+
+// VerifSplitPreMasterSecret wraps splitPreMasterSecret.
+func VerifSplitPreMasterSecret(secret []byte) (s1, s2 []byte) { return splitPreMasterSecret(secret) }
+
+// VerifPRF10 wraps prf10.
+func VerifPRF10(n int, secret, label, seed []byte) []byte {
+	out := make([]byte, n)
+	prf10(out, secret, label, seed)
+	return out
+}
+
+// VerifPRF12 wraps prf12(hash).
+func VerifPRF12(hashName string, n int, secret, label, seed []byte) []byte {
+	out := make([]byte, n)
+	prf12(verifKDFHash(hashName))(out, secret, label, seed)
+	return out
+}
+
+// VerifPRFForVersion wraps prfForVersion(version, suite).
+func VerifPRFForVersion(version uint16, s VerifKDFSuite, n int, secret, label, seed []byte) []byte {
+	out := make([]byte, n)
+	prfForVersion(version, verifKDFSuitePtr(s))(out, secret, label, seed)
+	return out
+}
+
+// VerifMasterFromPreMasterSecret wraps masterFromPreMasterSecret.
+func VerifMasterFromPreMasterSecret(version uint16, s VerifKDFSuite, preMasterSecret, clientRandom, serverRandom []byte) []byte {
+	return masterFromPreMasterSecret(version, verifKDFSuitePtr(s), preMasterSecret, clientRandom, serverRandom)
+}
+
+// VerifKeysFromMasterSecret wraps keysFromMasterSecret.
+func VerifKeysFromMasterSecret(version uint16, s VerifKDFSuite, masterSecret, clientRandom, serverRandom []byte, macLen, keyLen, ivLen int) (clientMAC, serverMAC, clientKey, serverKey, clientIV, serverIV []byte) {
+	return keysFromMasterSecret(version, verifKDFSuitePtr(s), masterSecret, clientRandom, serverRandom, macLen, keyLen, ivLen)
+}
+
+// VerifFinishedSums feeds the messages to a newFinishedHash(version, suite)
+// (one Write per element) and returns Sum, clientSum and serverSum.
+func VerifFinishedSums(version uint16, s VerifKDFSuite, masterSecret []byte, messages [][]byte) (sum, client, server []byte) {
+	h := newFinishedHash(version, verifKDFSuitePtr(s))
+	for _, m := range messages {
+		h.Write(m)
+	}
+	return h.Sum(), h.clientSum(masterSecret), h.serverSum(masterSecret)
+}
+
+// VerifEKMFromMasterSecret wraps ekmFromMasterSecret(...)(label, context, length).
+func VerifEKMFromMasterSecret(version uint16, s VerifKDFSuite, masterSecret, clientRandom, serverRandom []byte, label string, context []byte, length int) ([]byte, error) {
+	return ekmFromMasterSecret(version, verifKDFSuitePtr(s), masterSecret, clientRandom, serverRandom)(label, context, length)
+}
+
+// VerifKDFSuite13 describes one TLS 1.3 suite.
+type VerifKDFSuite13 struct {
+	ID       uint16
+	KeyLen   int
+	HashName string // crypto.Hash.String() of the suite hash
+	HashSize int
+}
+
+// VerifKDFSuites13 lists cipherSuitesTLS13.
+func VerifKDFSuites13() []VerifKDFSuite13 {
+	var out []VerifKDFSuite13
+	for _, s := range cipherSuitesTLS13 {
+		out = append(out, VerifKDFSuite13{ID: s.id, KeyLen: s.keyLen, HashName: s.hash.String(), HashSize: s.hash.Size()})
+	}
+	return out
+}
+
+func verifKDFTranscript(c *cipherSuiteTLS13, transcript [][]byte, absent bool) hash.Hash {
+	if absent {
+		return nil
+	}
+	h := c.hash.New()
+	for _, m := range transcript {
+		h.Write(m)
+	}
+	return h
+}
+
+// VerifTLS13ExpandLabel wraps (*cipherSuiteTLS13).expandLabel.
+func VerifTLS13ExpandLabel(id uint16, secret []byte, label string, context []byte, length int) []byte {
+	return cipherSuiteTLS13ByID(id).expandLabel(secret, label, context, length)
+}
+
+// VerifTLS13DeriveSecret wraps deriveSecret; noTranscript passes a nil hash.
+func VerifTLS13DeriveSecret(id uint16, secret []byte, label string, transcript [][]byte, noTranscript bool) []byte {
+	c := cipherSuiteTLS13ByID(id)
+	return c.deriveSecret(secret, label, verifKDFTranscript(c, transcript, noTranscript))
+}
+
+// VerifTLS13Extract wraps extract.
+func VerifTLS13Extract(id uint16, newSecret, currentSecret []byte) []byte {
+	return cipherSuiteTLS13ByID(id).extract(newSecret, currentSecret)
+}
+
+// VerifTLS13NextTrafficSecret wraps nextTrafficSecret.
+func VerifTLS13NextTrafficSecret(id uint16, trafficSecret []byte) []byte {
+	return cipherSuiteTLS13ByID(id).nextTrafficSecret(trafficSecret)
+}
+
+// VerifTLS13TrafficKey wraps trafficKey.
+func VerifTLS13TrafficKey(id uint16, trafficSecret []byte) (key, iv []byte) {
+	return cipherSuiteTLS13ByID(id).trafficKey(trafficSecret)
+}
+
+// VerifTLS13FinishedHash wraps finishedHash.
+func VerifTLS13FinishedHash(id uint16, baseKey []byte, transcript [][]byte) []byte {
+	c := cipherSuiteTLS13ByID(id)
+	return c.finishedHash(baseKey, verifKDFTranscript(c, transcript, false))
+}
+
+// VerifTLS13ExportKeyingMaterial wraps exportKeyingMaterial(masterSecret, transcript)(label, context, length).
+func VerifTLS13ExportKeyingMaterial(id uint16, masterSecret []byte, transcript [][]byte, label string, context []byte, length int) ([]byte, error) {
+	c := cipherSuiteTLS13ByID(id)
+	return c.exportKeyingMaterial(masterSecret, verifKDFTranscript(c, transcript, false))(label, context, length)
+}
